@@ -471,13 +471,14 @@ def i_LDR(i, fmap):
             fmap[Xn] = fmap(address)
     else:  # literal case:
         Xt, offset = i.operands
-        address = fmap[pc] + offset
+        # the address is relative to this instruction; i.size is the number
+        # of bytes to load
+        data = fmap(__mem(pc + offset, i.size * 8))
         fmap[pc] = fmap[pc] + i.length
-        data = __mem(address, i.size)
         if i.signed:
-            fmap[Xt] = fmap(data.signextend(64))
+            fmap[Xt] = data.signextend(Xt.size)
         else:
-            fmap[Xt] = fmap(data.zeroextend(64))
+            fmap[Xt] = data.zeroextend(Xt.size)
 
 
 i_LDRB = i_LDR
